@@ -13,3 +13,10 @@ chk("C19", "runtime monitoring: lock-step reference models over exhaustively enu
 chk("C20", "runtime monitoring: round-trip oracle with an independent decimal/hex cross-check over generated layout entries",
     "Seeded generator over every AbiType variant nested to depth 5 and boundary/random 256-bit indices; each entry is serialised, deserialised and re-serialised by the real serde implementations; equality, text equality, index format and index value (against ethnum's decimal Display) are checked.",
     "Trusts serde_json and Python's int parsing.", "DESIGN.md 4/C20")
+
+chk("C07", "runtime monitoring: differential oracle (concrete reference EVM with path enumeration + tree evaluator) over generated programs",
+    "Generated all-constant, loop-free, stack-safe programs are executed by the real symbolic VM; every stored end state (stack at all depths, memory words, per-key ordered storage generations) is evaluated with EVM word semantics and compared with the matching path of an independent concrete EVM that follows both outcomes of every JUMPI. Two deviations (SIGNEXTEND roles, BYTE index wrap) are recorded as known findings and recognised only when the state equals the reference with exactly that deviation switched on.",
+    "Trusts vlib/evmref.py, vlib/treeeval.py; ADDMOD/MULMOD Modulo nodes are read as the wide operation; initial storage/memory are zero.", "DESIGN.md 4/C07")
+chk("C08", "runtime monitoring: executed-offset sets of every stored state compared with a reference control-flow exploration",
+    "Programs with constant jump targets of every kind (valid, in push data, non-JUMPDEST, out of range, >=2^32 with valid low bits, computed) and dead code behind bad jumps and halting instructions run through the real VM; per-state visit counters are read through the public API and compared with the reachable set and path set of the reference EVM; canary slots written only in dead code must not reach the layout.",
+    "Trusts vlib/evmref.py as the EVM control-flow graph; loop-free programs within the default limits.", "DESIGN.md 4/C08")
